@@ -7,9 +7,17 @@
     Model/FairShareSpec.v.  [fresh qs]: every queue starts with fair share 0, as
     proportion.go builds them.  No other hypothesis: totals, quotas, limits,
     weights, requests, usage and k are arbitrary rationals (also negative), any
-    number of queues. *)
+    number of queues.
+
+    The hierarchy (last section): [set_fair_share_tree fuel totals k forest] is
+    proportion.go's setFairShare / setFairShareForQueues over the three resources,
+    [forest] the top queues with their sub-trees; [contract_holds T k given res]
+    (Proofs/FairShareTree.v) collects clauses 2-7 and the same-queues statement for
+    one sibling set, [levels_hold] says it of every sibling set of the hierarchy
+    with the parent's resulting fair share as the amount divided. *)
 From Coq Require Import List ZArith QArith Qminmax Permutation.
-From KaiV Require Import Model.FairShare Model.FairShareSpec Proofs.FairShare Proofs.FairShareSweep.
+From KaiV Require Import Model.FairShare Model.FairShareSpec Proofs.FairShare Proofs.FairShareSweep
+  Proofs.FairShareTree.
 Import ListNotations.
 Open Scope Q_scope.
 
@@ -186,3 +194,66 @@ Theorem C09_nonvacuous_clauses :
                             /\ q_weight q1 < q_weight q2).
 Proof. exact ex_clause_hypotheses. Qed.
 Print Assumptions C09_nonvacuous_clauses.
+
+(** ---- The hierarchy: children divide their parent's fair share, and the
+    contract holds for every sibling set at every level ---- *)
+
+(** One level: after a division, the queues of the sibling set - each found again
+    under its UID, in the order they were given - satisfy every clause of the
+    contract ([contract_holds]: same queues, lower bound, upper bound, conservation,
+    weight monotonicity, no idle surplus, priority bands) for the amount [T] that was
+    divided. *)
+Theorem C09_contract_of_one_division :
+  forall (T k : Q) (given out : list queue) (rem : Q),
+    fresh given -> NoDup (map q_uid given) ->
+    set_resource_share T k given = Done (out, rem) ->
+    contract_holds T k given (map (updated out) given).
+Proof. exact level_contract. Qed.
+Print Assumptions C09_contract_of_one_division.
+
+(** The recursion over the hierarchy terminates within the depth of the forest (the
+    model's fuel is never exhausted), with or without the shortcut. *)
+Theorem C09_tree_fuel_suffices :
+  forall (skip : bool) (fuel : nat) (totals : Q3) (k : Q) (ts : list qtree),
+    (forest_depth ts <= fuel)%nat -> fair_share_tree_gen skip fuel totals k ts <> OutOfFuel.
+Proof. exact tree_fuel_suffices. Qed.
+Print Assumptions C09_tree_fuel_suffices.
+
+(** For every hierarchy (unique sibling UIDs, fair shares starting at 0) and every
+    fuel sufficient for its depth, setFairShare returns, and in its result EVERY
+    sibling set satisfies the contract, in each of the three resources: the top
+    queues for the cluster totals, and the children of every queue for the fair
+    share that queue ended up with - whatever that share is (also 0). *)
+Theorem C09_contract_at_every_level :
+  forall (fuel : nat) (totals : Q3) (k : Q) (ts : list qtree),
+    wf_forest ts -> (forest_depth ts <= fuel)%nat ->
+    exists out, set_fair_share_tree fuel totals k ts = Done out /\ levels_hold k totals ts out.
+Proof. exact contract_at_every_level. Qed.
+Print Assumptions C09_contract_at_every_level.
+
+(** Non-vacuity: the frozen department [dep_a] (limit 0) ends with fair share 0 in
+    all three resources, and team [team_a] below it (quota 2, request 3) still gets
+    min(deserved, request) = 2. *)
+Theorem C09_tree_nonvacuous :
+  wf_forest ex_forest
+  /\ (forest_depth ex_forest <= 2)%nat
+  /\ set_fair_share_tree 2 ex_totals 0 ex_forest = Done ex_forest_result
+  /\ fair3 (with_gpu_fair dep_a 0) = (0, 0, 0)
+  /\ phase1 (q_fair (q3_gpu (with_gpu_fair dep_a 0))) (q3_gpu team_a) == 2
+  /\ q_fair (q3_gpu (with_gpu_fair team_a 2)) == 2.
+Proof. exact ex_forest_division. Qed.
+Print Assumptions C09_tree_nonvacuous.
+
+(** The variant with the "skip idle sub-trees" shortcut
+    ([set_fair_share_tree_skip_idle]: no recursion below a queue whose fair share is
+    <= 0 in all three resources - NOT the code) violates the lower bound on the same
+    hierarchy: the team keeps fair share 0 < 2 = min(deserved, request). *)
+Theorem C09_skip_idle_variant_violates_lower_bound :
+  wf_forest ex_forest
+  /\ set_fair_share_tree_skip_idle 2 ex_totals 0 ex_forest = Done ex_forest_skipped
+  /\ (exists parent child rest,
+        ex_forest_skipped = QT parent [QT child []] :: rest
+        /\ q_fair (q3_gpu child) < phase1 (q_fair (q3_gpu parent)) (q3_gpu child))
+  /\ ~ levels_hold 0 ex_totals ex_forest ex_forest_skipped.
+Proof. exact skip_idle_breaks_lower_bound. Qed.
+Print Assumptions C09_skip_idle_variant_violates_lower_bound.
